@@ -705,10 +705,9 @@ func machineCompare(rc *runCfg, m *merged, dir string, names []string, files []s
 }
 
 func runC03(rc *runCfg, pl *plan, m *merged) error {
-	stages := []stage{{config: "instr", mode: "source-trace"}}
-	if rc.tier == "thorough" {
-		stages = append(stages, stage{config: "instr-purego", mode: "source-trace"})
-	}
+	// source level in both configurations the library has on this machine (the portable field
+	// code is different source); the machine level covers purego in the thorough tier only
+	stages := []stage{{config: "instr", mode: "source-trace"}, {config: "instr-purego", mode: "source-trace"}}
 	if rc.replayMode != "machine-trace" {
 		for _, st := range stages {
 			if rc.only >= 0 && rc.replayConfig != "" && rc.replayConfig != st.config {
